@@ -34,7 +34,7 @@ def _free_names(e):
 
 
 def run(repo, rep, tier):
-    rep.rule("R-C16-5", "every parameter of the functions behind this property is read (smoothing): none is accepted and then ignored")
+    rep.rule("R-C16-5", "every parameter of the functions behind this property is read (smoothing): none is accepted and then ignored, and no control parameter (cutoff, limit, tolerance, window, count, switch) is replaced by another value before use (coercion and default filling aside)")
     from .shared import unused_parameters
     unused_parameters(repo, rep, "R-C16-5", ("wavespectra.core.utils.smooth_spec", "wavespectra.specarray.SpecArray.smooth"), "smoothing")
     rep.rule("R-C16-1", "both window sizes are tested for evenness and ValueError is raised before any data operation")
